@@ -342,11 +342,110 @@ func c14NormPolicy(n datamodel.Node) datamodel.Node {
 	}
 }
 
+type c14CtorCase struct {
+	Ctor string `json:"ctor"`
+	Sel  string `json:"sel"`
+}
+
+// c14CtorSelSub: every policy constructor that takes a selector, with valid and invalid
+// selector texts: the constructor must fail exactly when selector.Parse fails, and what it
+// accepts must survive the IPLD round trip.
+func c14CtorSelSub() *engine.Sub {
+	ctors := map[string]func(sel string) policy.Constructor{
+		"Equal":              func(s string) policy.Constructor { return policy.Equal(s, nInt(1)) },
+		"GreaterThan":        func(s string) policy.Constructor { return policy.GreaterThan(s, nInt(1)) },
+		"GreaterThanOrEqual": func(s string) policy.Constructor { return policy.GreaterThanOrEqual(s, nInt(1)) },
+		"LessThan":           func(s string) policy.Constructor { return policy.LessThan(s, nInt(1)) },
+		"LessThanOrEqual":    func(s string) policy.Constructor { return policy.LessThanOrEqual(s, nInt(1)) },
+		"Like":               func(s string) policy.Constructor { return policy.Like(s, "a*") },
+		"All":                func(s string) policy.Constructor { return policy.All(s, policy.Equal(".", nInt(1))) },
+		"Any":                func(s string) policy.Constructor { return policy.Any(s, policy.Equal(".", nInt(1))) },
+		"Not(Equal)":         func(s string) policy.Constructor { return policy.Not(policy.Equal(s, nInt(1))) },
+		"And(Equal,All)":     func(s string) policy.Constructor { return policy.And(policy.Equal(".a", nInt(1)), policy.All(s, policy.Equal(".", nInt(1)))) },
+		"Or(Any)":            func(s string) policy.Constructor { return policy.Or(policy.Any(s, policy.Like(".", "*"))) },
+		"All(inner)":         func(s string) policy.Constructor { return policy.All(".l", policy.Equal(s, nInt(1))) },
+		"Any(inner-like)":    func(s string) policy.Constructor { return policy.Any(".l", policy.Like(s, "*")) },
+	}
+	var names []string
+	for k := range ctors {
+		names = append(names, k)
+	}
+	sortStrings(names)
+	return &engine.Sub{
+		Name: "constructors-vs-selector-texts",
+		Rule: "13 constructor shapes (every constructor that takes a selector, alone and nested) x every string over the selector alphabet up to length 4 plus a list of longer valid / invalid selectors: policy.Construct fails exactly when selector.Parse rejects the text; an accepted policy converts to IPLD, is accepted by FromIPLD and matches identically afterwards; non-trivial = texts accepted by selector.Parse",
+		Bound: func(string) string { return "13 constructor shapes x (all strings of length <=4 over 14 symbols + 24 longer texts)" },
+		Gen: func(tier string, emit func(any) bool) {
+			extra := []string{"tags", ".tags[", ".tags..[]", ".tags ", ".a.b", ".a[0]?", `.["a b"]`, ".a[1:2]", ".[]", ".a?.b?", ".a[", ".a]", `.a"`, `.a["b`, ".é", "a", "", " .a", ".a\n", ".a[-1]", ".a[:]", ".a[1:", ".a..b", ".?"}
+			for _, n := range names {
+				ok := true
+				allStrings(c14Alphabet, 4, func(s string) bool {
+					ok = emit(&c14CtorCase{Ctor: n, Sel: s})
+					return ok
+				})
+				if !ok {
+					return
+				}
+				for _, e := range extra {
+					if !emit(&c14CtorCase{Ctor: n, Sel: e}) {
+						return
+					}
+				}
+			}
+		},
+		NewCase: func() any { return &c14CtorCase{} },
+		Run: func(ctx *engine.Ctx, c any) {
+			cs := c.(*c14CtorCase)
+			ctx.States(1)
+			ctx.Eval(1)
+			ctx.Trans(1)
+			_, perr := selector.Parse(cs.Sel)
+			p, cerr := policy.Construct(ctors[cs.Ctor](cs.Sel))
+			if perr == nil {
+				ctx.Nontrivial(1)
+			}
+			switch {
+			case perr != nil && cerr == nil:
+				ctx.Outcome("constructor-accepts-invalid-selector")
+				ctx.Failf(cs, "constructor-accepts-invalid-selector/"+cs.Ctor, "policy.%s built with the invalid selector %q returns no error (selector.Parse: %v)", cs.Ctor, cs.Sel, perr)
+				return
+			case perr == nil && cerr != nil:
+				ctx.Outcome("constructor-rejects-valid-selector")
+				ctx.Failf(cs, "constructor-rejects-valid-selector/"+cs.Ctor, "policy.%s rejects the valid selector %q: %v", cs.Ctor, cs.Sel, cerr)
+				return
+			case cerr != nil:
+				ctx.Outcome("rejected")
+				return
+			}
+			ctx.Outcome("accepted")
+			n, err := p.ToIPLD()
+			if err != nil {
+				ctx.Failf(cs, "constructed/toipld-fails", "policy.%s(%q) cannot be converted to IPLD: %v", cs.Ctor, cs.Sel, err)
+				return
+			}
+			p2, err := policy.FromIPLD(n)
+			if err != nil {
+				ctx.Failf(cs, "constructed/fromipld-rejects", "policy.%s(%q) written as %s is rejected by FromIPLD: %v", cs.Ctor, cs.Sel, nodeJSON(n), err)
+				return
+			}
+			for _, d := range selectorData()[:12] {
+				m1, pm1 := mp(p, d.Node)
+				m2, pm2 := mp(p2, d.Node)
+				ctx.Eval(4)
+				if m1 != m2 || pm1 != pm2 {
+					ctx.Failf(cs, "constructed/matching-changes", "policy.%s(%q) matches %s differently after the IPLD round trip", cs.Ctor, cs.Sel, d.Name)
+					return
+				}
+			}
+		},
+	}
+}
+
 func C14() *engine.Check {
 	return &engine.Check{
 		Property: "C14",
 		Level:    "model_checking",
-		Subs:     []*engine.Sub{c14SelectorSub(), c14PolicySub(), c14ConstructedSub()},
+		Subs:     []*engine.Sub{c14SelectorSub(), c14PolicySub(), c14ConstructedSub(), c14CtorSelSub()},
 		Assumptions: []string{
 			"rejected selector texts carry no obligation; the only accepted normalisation is dropping '?' after an identity dot",
 			"policy nodes are generated from a grammar of statement shapes (operator x arity x argument kind), not from arbitrary IPLD",
